@@ -65,3 +65,71 @@ fn rac_typst_frontend() {
         Err(_) => { println!("RAC-CEX typst_frontend {{\"text\": {:?}, \"why\": \"did not terminate within 240 s\"}}", current.lock().unwrap().clone()); panic!("typst front-end hangs"); }
     }
 }
+
+// Prose words at their true offsets (C04) for Typst: documents assembled from <= 3 of 9 segments with declared prose
+// words (markup text with astral and other multi-byte characters, headings, emphasis, code, math, raw text, strings in
+// function calls): every declared prose word is a Word token at its declared character offset, and every Word token
+// lies inside the file and spells the characters at its span (strings passed to functions may or may not be prose,
+// so only the declared words are demanded, not exactness).
+#[test]
+fn rac_typst_prose_offsets() {
+    let segs: [(&str, &[&str]); 9] = [
+        ("Some 😀 words here.\n\n", &["Some", "words", "here"]),
+        ("= Heading 😀 text\n\n", &["Heading", "text"]),
+        ("*bold é😀 emphasis* stays\n\n", &["bold", "é", "emphasis", "stays"]),
+        ("#let x = 1\n", &[]),
+        ("$x^2$ ", &[]),
+        ("`raw 😀` ", &[]),
+        ("- item 😀 one\n- item two\n\n", &["item", "one", "item", "two"]),
+        ("naïve closing words\n\n", &["naïve", "closing", "words"]),
+        ("𝒳 astral start then text\n\n", &["astral", "start", "then", "text"]),
+    ];
+    let mut combos: Vec<Vec<usize>> = vec![vec![]];
+    let mut frontier: Vec<Vec<usize>> = vec![vec![]];
+    for _ in 0..3 {
+        let mut next = vec![];
+        for c in &frontier { for i in 0..segs.len() { let mut d = c.clone(); d.push(i); next.push(d); } }
+        combos.extend(next.iter().cloned());
+        frontier = next;
+    }
+    let mut cases = 0u64;
+    let mut nontrivial = 0u64;
+    for c in &combos {
+        let mut text = String::new();
+        let mut want: Vec<(usize, usize, String)> = vec![];
+        for i in c {
+            let base = text.chars().count();
+            let chars: Vec<char> = segs[*i].0.chars().collect();
+            let mut from = 0usize;
+            for w in segs[*i].1 {
+                let wc: Vec<char> = w.chars().collect();
+                let pos = (from..=chars.len() - wc.len()).find(|&k| chars[k..k + wc.len()] == wc[..]).unwrap();
+                want.push((base + pos, base + pos + wc.len(), w.to_string()));
+                from = pos + wc.len();
+            }
+            text.push_str(segs[*i].0);
+        }
+        cases += 1;
+        let src: Vec<char> = text.chars().collect();
+        let r = std::panic::catch_unwind(std::panic::AssertUnwindSafe(|| {
+            let doc = Document::new_curated(&text, &Typst);
+            doc.get_tokens().iter().filter(|t| matches!(t.kind, TokenKind::Word(_)))
+                .map(|t| (t.span.start, t.span.end, src.get(t.span.start..t.span.end).map(|s| s.iter().collect::<String>()).unwrap_or_else(|| "<outside the file>".to_string())))
+                .collect::<Vec<_>>()
+        }));
+        match r {
+            Err(_) => { println!("RAC-CEX typst_prose_offsets {{\"text\": {:?}, \"why\": \"panicked\"}}", text); panic!("prose-offset contract violated"); }
+            Ok(got) => {
+                let missing: Vec<_> = want.iter().filter(|w| !got.contains(w)).take(3).collect();
+                let garbled: Vec<_> = got.iter().filter(|g| g.2 == "<outside the file>" || !g.2.chars().all(|ch| ch.is_alphabetic() || ch == '\'' || ch.is_ascii_digit())).take(3).collect();
+                if !missing.is_empty() || !garbled.is_empty() {
+                    println!("RAC-CEX typst_prose_offsets {{\"text\": {:?}, \"why\": \"a prose word is not a word token at its offset, or a word token does not spell a word\", \"prose_words_missing\": {:?}, \"garbled_words\": {:?}}}", text, missing, garbled);
+                    panic!("prose-offset contract violated");
+                }
+                if !want.is_empty() { nontrivial += 1; }
+            }
+        }
+    }
+    println!("RAC-SAMPLE typst_prose_offsets {{\"file\": {:?}, \"prose_words\": [\"Some\", \"words\", \"here\"]}}", segs[0].0);
+    println!("RAC-OK typst_prose_offsets cases={} nontrivial={} bound=<=3-of-9-segments-with-known-prose-words", cases, nontrivial);
+}
